@@ -567,7 +567,7 @@ def may_throw(ev):
     return False
 
 
-def forward(fn, init, transfer, edge=None, join=None, eh=True, handler_entry=None):
+def forward(fn, init, transfer, edge=None, join=None, eh=True, handler_entry=None, edge_raw=None):
     """Forward dataflow to a fixed point.
     transfer(state, ev, (b, i)) -> state ; edge(state, block, label, cond) -> state or None (edge dead)
     join(a, b) -> state.  States must be comparable with ==.  Returns (before, block_in, block_out)
@@ -609,6 +609,10 @@ def forward(fn, init, transfer, edge=None, join=None, eh=True, handler_entry=Non
             s2 = edge(st, blk, lab, blk.cond) if edge else st
             if s2 is None:
                 continue
+            if edge_raw:
+                s2 = edge_raw(s2, blk, raw)
+                if s2 is None:
+                    continue
             pending.append((t, s2))
         for t, s2 in pending:
             old = block_in.get(t)
